@@ -501,8 +501,31 @@ func cliWork(line string) string {
 			cmd.Env = append(cmd.Env, "GOCOVERDIR="+d) // a -cover build of the binary (coverage report of the evidence)
 		}
 		var so, se bytes.Buffer
-		cmd.Stdout, cmd.Stderr = &so, &se
+		// where standard output and standard error lead must not matter: pipes (as under a CI runner) or, for about a
+		// third of the invocations, regular files outside the sandbox (`spok … > out.log 2> err.log`)
+		var fo, fe *os.File
+		if h := sha256.Sum256([]byte(c.encode() + strings.Join(argv, " "))); h[0]%3 == 0 {
+			fo, _ = os.CreateTemp("", "vhcli-out-")
+			fe, _ = os.CreateTemp("", "vhcli-err-")
+		}
+		if fo != nil && fe != nil {
+			cmd.Stdout, cmd.Stderr = fo, fe
+		} else {
+			cmd.Stdout, cmd.Stderr = &so, &se
+		}
 		runErr := cmd.Run()
+		if fo != nil && fe != nil {
+			for _, pr := range []struct {
+				f *os.File
+				b *bytes.Buffer
+			}{{fo, &so}, {fe, &se}} {
+				if data, err := os.ReadFile(pr.f.Name()); err == nil {
+					pr.b.Write(data)
+				}
+				pr.f.Close()
+				os.Remove(pr.f.Name())
+			}
+		}
 		timedOut := ctx.Err() != nil
 		cancel()
 		exit := 0
@@ -1065,7 +1088,7 @@ func pickWorld(g *gen, invalidPct int) int {
 	return []int{wSyntax, wSyntax, wDup, wBuiltin, wExec}[g.rng.Intn(5)]
 }
 
-var runFlagSets = [][]string{nil, {"quiet"}, {"json"}, {"force"}, {"force", "json"}, {"force", "quiet"}, {"debug"}, {"q"}, {"j"}, {"f"}}
+var runFlagSets = [][]string{nil, {"quiet"}, {"json"}, {"force"}, {"force", "json"}, {"force", "quiet"}, {"debug"}, {"q"}, {"j"}, {"f"}, {"json", "debug"}, {"j", "debug", "force"}}
 
 // C09: failing commands anywhere x {plain, --quiet, --json, --force}, then a second run
 func genC09(w *bufio.Writer, g *gen, n int) {
